@@ -2,7 +2,6 @@ package checks
 
 import (
 	"fmt"
-	"strings"
 
 	"github.com/openfga/openfga/internal/verifh/core"
 	"github.com/openfga/openfga/internal/verifh/e2"
@@ -11,125 +10,6 @@ import (
 )
 
 func init() { Registry["C01"] = C01 }
-
-var (
-	one, twenty = 1, 20
-	Subjects    = []string{"user:a", "user:*", "group:1#member", "doc:2#r1", "doc:1#r0"}
-)
-
-type Node struct{ Obj, Rel string }
-
-func RequestNodes(u ref.Universe) []Node {
-	var out []Node
-	for _, o := range u["doc"] {
-		out = append(out, Node{o, "r0"}, Node{o, "r1"})
-	}
-	for _, g := range u["group"] {
-		out = append(out, Node{g, "member"})
-	}
-	return out
-}
-
-func ReqContexts(w *ref.World) []*int {
-	for _, t := range w.Tuples {
-		if t.Cond != "" {
-			return []*int{nil, &one, &twenty}
-		}
-	}
-	return []*int{nil}
-}
-
-func ctxStr(x *int) string {
-	if x == nil {
-		return "-"
-	}
-	return fmt.Sprint(*x)
-}
-
-func tuplesStr(ts []ref.Tuple) string {
-	var s []string
-	for _, t := range ts {
-		s = append(s, t.String())
-	}
-	return strings.Join(s, " ")
-}
-
-// CheckCase is a replayable decision case.
-type CheckCase struct {
-	World   *ref.World `json:"world"`
-	Obj     string     `json:"obj"`
-	Rel     string     `json:"rel"`
-	Subject string     `json:"subject"`
-	ReqCtx  *int       `json:"reqctx,omitempty"`
-	Got     string     `json:"got"`
-	Strong  string     `json:"ref_strong"`
-	Weak    string     `json:"ref_weak_at_tuple"`
-	Config  string     `json:"config,omitempty"`
-	Seen    string     `json:"seen,omitempty"`
-}
-
-// Verdict classifies an engine outcome against the reference ("" = acceptable).
-func Verdict(got string, strong, weak ref.TV) string {
-	switch got {
-	case "T":
-		if strong != ref.T {
-			return "V1-unsound-allow"
-		}
-	case "F":
-		if strong != ref.F && weak != ref.F {
-			if strong == ref.T {
-				return "V2-wrong-deny"
-			}
-			return "V3-missed-failure"
-		}
-	case "ERR":
-		if strong != ref.E && weak != ref.E {
-			return "V4-spurious-failure"
-		}
-	}
-	return ""
-}
-
-// unevaluableWithSibling: some valid tuple is unevaluable under the request context while another valid
-// tuple of the same (object, relation) — i.e. of the same filtered read — is evaluable.
-func unevaluableWithSibling(w *ref.World, reqctx *int) bool {
-	for _, t := range w.Tuples {
-		if !w.Valid(t) || ref.CondVal(t, reqctx) != ref.E {
-			continue
-		}
-		for _, t2 := range w.Tuples {
-			if t2.Obj == t.Obj && t2.Rel == t.Rel && t2.User != t.User && w.Valid(t2) && ref.CondVal(t2, reqctx) != ref.E {
-				return true
-			}
-		}
-	}
-	return false
-}
-
-// unevaluableUnreached: some valid tuple is unevaluable under the request context although a top-down
-// evaluation of (o, r) never consults it.
-func unevaluableUnreached(w *ref.World, o, r string, reqctx *int) bool {
-	reached := w.ReachedTuples(o, r)
-	for i, t := range w.Tuples {
-		if w.Valid(t) && ref.CondVal(t, reqctx) == ref.E && !reached[i] {
-			return true
-		}
-	}
-	return false
-}
-
-// DecisionSignature refines a verdict class with mechanism evidence computed from the case itself.
-func DecisionSignature(v string, w *ref.World, o, r string, reqctx *int) string {
-	switch {
-	case (v == "V2-wrong-deny" || v == "V3-missed-failure") && w.CycleUnderExclusion(o, r):
-		return v + "/cycle-in-exclusion-subtrahend"
-	case v == "V3-missed-failure" && unevaluableWithSibling(w, reqctx):
-		return v + "/unevaluable-tuple-with-evaluable-sibling"
-	case v == "V4-spurious-failure" && unevaluableUnreached(w, o, r, reqctx):
-		return v + "/unevaluable-condition-on-unreached-tuple"
-	}
-	return v
-}
 
 func c01Models(o *core.Options) []*ref.Model {
 	all := e2.ValidModels(ref.Family(ref.FamilyOpts{Conds: true, Deep: o.Thorough()}))
@@ -152,10 +32,10 @@ func C01(o *core.Options) int {
 	opts := e2.SweepOpts{K: k, ServerOpts: []server.OpenFGAServiceV1Option{server.WithRequestTimeout(0)}}
 	r.Set("models_in_family", len(models))
 	r.Set("max_tuples", k)
-	nodes := RequestNodes(ref.DefaultUniverse())
+	nodes := e2.RequestNodes(ref.DefaultUniverse())
 	run := func(env *e2.Env, w *ref.World) {
-		for _, rc := range ReqContexts(w) {
-			for _, sub := range Subjects {
+		for _, rc := range e2.ReqContexts(w) {
+			for _, sub := range e2.Subjects {
 				for _, n := range nodes {
 					if !e2.ValidRequest(w.M, n.Obj, n.Rel, sub) {
 						continue
@@ -164,26 +44,26 @@ func C01(o *core.Options) int {
 					got := env.Check(n.Obj, n.Rel, sub, rc, nil)
 					r.Eval(1)
 					if strong != ref.F || weak != ref.F {
-						r.Nontrivial(core.Hash(w.M.String(), tuplesStr(w.Tuples), sub, ctxStr(rc), n.Obj, n.Rel))
+						r.Nontrivial(core.Hash(w.M.String(), e2.TuplesStr(w.Tuples), sub, e2.CtxStr(rc), n.Obj, n.Rel))
 					}
-					v := Verdict(got.V, strong, weak)
+					v := e2.Verdict(got.V, strong, weak)
 					if v == "" {
 						continue
 					}
 					// re-decide: the deviation must show again in 5 re-executions
 					again := 0
 					for i := 0; i < 5; i++ {
-						if g := env.Check(n.Obj, n.Rel, sub, rc, nil); Verdict(g.V, strong, weak) == v {
+						if g := env.Check(n.Obj, n.Rel, sub, rc, nil); e2.Verdict(g.V, strong, weak) == v {
 							again++
 						}
 					}
-					c := CheckCase{World: w, Obj: n.Obj, Rel: n.Rel, Subject: sub, ReqCtx: rc, Got: got.String() + " " + got.Msg, Strong: strong.String(), Weak: weak.String(), Seen: fmt.Sprintf("1+%d/5", again)}
+					c := e2.CheckCase{World: w, Obj: n.Obj, Rel: n.Rel, Subject: sub, ReqCtx: rc, Got: got.String() + " " + got.Msg, Strong: strong.String(), Weak: weak.String(), Seen: fmt.Sprintf("1+%d/5", again)}
 					if again == 0 {
 						r.Anomaly(c)
 						continue
 					}
-					r.Violate(DecisionSignature(v, w, n.Obj, n.Rel, rc),
-						fmt.Sprintf("Check(%s#%s@%s ctx=%s)=%s ref=%s/%s model{%s} tuples{%s}", n.Obj, n.Rel, sub, ctxStr(rc), got, strong, weak, w.M, tuplesStr(w.Tuples)), c)
+					r.Violate(e2.DecisionSignature(v, w, n.Obj, n.Rel, rc),
+						fmt.Sprintf("Check(%s#%s@%s ctx=%s)=%s ref=%s/%s model{%s} tuples{%s}", n.Obj, n.Rel, sub, e2.CtxStr(rc), got, strong, weak, w.M, e2.TuplesStr(w.Tuples)), c)
 				}
 			}
 		}
@@ -196,7 +76,7 @@ func C01(o *core.Options) int {
 			return
 		}
 		if len(w.Tuples) == 2 {
-			r.Sample(map[string]any{"model": w.M.String(), "tuples": tuplesStr(w.Tuples)})
+			r.Sample(map[string]any{"model": w.M.String(), "tuples": e2.TuplesStr(w.Tuples)})
 		}
 		run(env, w)
 	})
@@ -216,7 +96,7 @@ func C01(o *core.Options) int {
 }
 
 func replayCheck(o *core.Options, r *core.Report) int {
-	var c CheckCase
+	var c e2.CheckCase
 	if err := core.LoadReplay(o.Replay, &c); err != nil {
 		fmt.Println("replay:", err)
 		return 2
@@ -246,10 +126,10 @@ func replayCheck(o *core.Options, r *core.Report) int {
 	for i := 0; i < 5; i++ {
 		got := env.Check(c.Obj, c.Rel, c.Subject, c.ReqCtx, nil)
 		r.Eval(1)
-		v := Verdict(got.V, strong, weak)
+		v := e2.Verdict(got.V, strong, weak)
 		fmt.Printf("replay %d: Check=%s ref=%s/%s verdict=%q\n", i, got, strong, weak, v)
 		if v != "" {
-			r.Violate(DecisionSignature(v, c.World, c.Obj, c.Rel, c.ReqCtx), "replayed", c)
+			r.Violate(e2.DecisionSignature(v, c.World, c.Obj, c.Rel, c.ReqCtx), "replayed", c)
 		}
 	}
 	return r.Finish()
